@@ -2,6 +2,7 @@ import CedarVerif.Lemmas.TypecheckSound
 import CedarVerif.Lemmas.TypecheckSound2
 import CedarVerif.Lemmas.TypecheckPolicy
 import CedarVerif.Lemmas.TypecheckSIP
+import CedarVerif.Lemmas.TypecheckSIP2
 import CedarVerif.Thm.C11
 /-
 C03 — strict validation is sound (and not vacuous).
@@ -41,11 +42,14 @@ there the static types contain entity-type unions (`lub` of `User` and `Group`) 
 slot does not occur: `link_request_env` gives every slot of the policy a type; see `SlotsBound` in the full statement);
 record literals with duplicate keys (not representable in Rust).  These are covered by the differential run against Rust
 and by the implementation-level soundness search of harness/src/c03.rs only.
-`strict_implies_permissive` (full statement: a `def … : Prop`) is PROVED as `strict_implies_permissive_partial` — with the
-same type and capabilities in both modes — for the expressions of `InFragment2` whose least upper bounds have a flat side
-(`SIPFragment`: an `if` typechecked in both branches has a syntactically flat branch, set-literal elements are
-syntactically flat); NOT proved for `if` / set literals that join record, set or entity types.  Both modes are modelled and
-compared with Rust, and the implication is checked on the implementation for every generated policy.
+`strict_implies_permissive` (full statement: a `def … : Prop`) is PROVED as `strict_implies_permissive_strict` — with the
+SAME type and capabilities in both modes — for every expression of the strict fragment `InFragment2` (every construct), under
+`SchemaWF3` (the record types the schema declares are closed with distinct keys; the action table is a map), and at policy
+level as `strict_accepted_policy_permissive_accepted` (`checkPolicy` strict accepted ⇒ `checkPolicy` permissive gives the
+same verdicts).  Without `SchemaWF3`, `strict_implies_permissive_partial` covers the expressions whose least upper bounds
+have a flat side (`SIPFragment`).  NOT proved: schemas with open or duplicate-key record types (partial-schema
+validation).  Both modes are modelled and compared with Rust, and the implication is checked on the implementation for
+every generated policy.
 
 The invariant has the two clauses the Rust rules need (DESIGN.md App. E): a capability *holds* if its guard
 (`e has a`, `e.hasTag(k)`) is true OR fails with a permitted error; and the output capabilities of an expression typed
@@ -394,6 +398,60 @@ theorem strict_implies_permissive_partial (s : Schema) (env : RequestEnv) (q : R
     typeOf .permissive s env e caps = .ok (τ, c) :=
   sip hWF henv e hf hs caps _ h
 
+/-- `strict_implies_permissive` — with the SAME type and capabilities — for EVERY expression of the strict fragment
+`InFragment2` (every construct; distinct record keys; linked slots), given that the record types the schema declares are
+closed with distinct keys (`SchemaWF3`): the types strict typing assigns are then "good" (`GoodTy`: single entity types,
+closed records with distinct keys), and on good types the permissive least upper bound is the strict one whenever the
+latter exists (`lub_strict_perm`: where permissive but not strict subtyping holds — a required attribute against an
+optional one — the strict bound does not exist, `subtype_gap`). -/
+theorem strict_implies_permissive_strict (s : Schema) (env : RequestEnv) (q : Request)
+    (hWF : SchemaWF3 s) (henv : EnvMatches s env q) (e : Expr) (hf : InFragment2 env e = true)
+    (caps : Capabilities) (τ : CedarType) (c : Capabilities) (h : typeOf .strict s env e caps = .ok (τ, c)) :
+    typeOf .permissive s env e caps = .ok (τ, c) :=
+  sipG hWF henv e hf caps _ h
+
+/-- the instance of the full statement `strict_implies_permissive` that this gives -/
+theorem strict_implies_permissive_strict' (s : Schema) (env : RequestEnv) (q : Request)
+    (hWF : SchemaWF3 s) (henv : EnvMatches s env q) (e : Expr) (hf : InFragment2 env e = true)
+    (caps : Capabilities) (τ : CedarType) (c : Capabilities) (h : typeOf .strict s env e caps = .ok (τ, c)) :
+    ∃ τ' c', typeOf .permissive s env e caps = .ok (τ', c') ∧ isSubtype .permissive τ τ' = true := by
+  have hm := (sound2 (w := ⟨q, [], []⟩) hWF.toSchemaWF2 henv e hf caps τ c h).1
+  have hc := typeOf_cn hWF henv e hf caps τ c h
+  exact ⟨τ, c, strict_implies_permissive_strict s env q hWF henv e hf caps τ c h,
+    isSubtype_strict_perm' (isSubtype_refl_good τ ⟨hm, hc⟩)⟩
+
+/-- POLICY LEVEL: a policy or template that the strict typechecker accepts in every environment is accepted by the
+permissive typechecker in every environment, with the same verdicts -/
+theorem strict_accepted_policy_permissive_accepted (s : Schema) (pu ru : SlotUse) (cond : Expr)
+    (vs : List (RequestEnv × Verdict)) (hWF : SchemaWF3 s) (hf : ∀ env, env ∈ s.envs pu ru → InFragment2 env cond = true)
+    (hcp : checkPolicy .strict s pu ru cond = some vs) (hacc : accepted vs = true) :
+    checkPolicy .permissive s pu ru cond = some vs := by
+  unfold checkPolicy at hcp ⊢
+  refine option_mapM_congr hcp (fun env henv y hy hmem => ?_)
+  obtain ⟨q, hq⟩ := env_of_envs hWF henv
+  cases hc : checkEnv .strict s env cond with
+  | none => rw [hc] at hy; cases hy
+  | some v =>
+    rw [hc] at hy
+    simp only [Option.map_some, Option.some.injEq] at hy
+    subst hy
+    have hne : v ≠ .fail := by
+      have := List.all_eq_true.mp hacc _ hmem
+      simpa using this
+    -- same verdict in permissive mode
+    have hp : checkEnv .permissive s env cond = some v := by
+      unfold checkEnv at hc ⊢
+      cases hE : expectOneOf (typeOf .strict s env cond []) [boolT] with
+      | error err =>
+        rw [hE] at hc
+        cases err <;> simp at hc
+        exact (hne hc.symm).elim
+      | ok p =>
+        rw [hE] at hc
+        rw [(sipG hWF hq cond (hf env henv) []).expect _ _ hE]
+        exact hc
+    rw [hp]; rfl
+
 /-- Corollary: a verdict other than `fail` of the strict typechecker in an environment is the permissive verdict too -/
 theorem strict_accepted_implies_permissive_accepted (s : Schema) (env : RequestEnv) (q : Request)
     (hWF : SchemaWF2 s) (henv : EnvMatches s env q) (e : Expr) (hf : InFragment2 env e = true) (hs : SIPFragment e = true)
@@ -564,6 +622,37 @@ example : checkEnv .permissive ex2Schema ex2Env ex2Sip = some .bool :=
 example : (∃ b, ex2World.eval ex2Sip = .ok (.prim (.bool b))) ∨ (∃ err, ex2World.eval ex2Sip = .error err ∧ Permitted err) :=
   accepted_boolean_or_permitted_errorM .permissive ex2Schema ex2Env ex2World ex2_schemaWF ex2_envMatches ex2_request ex2_store
     ex2_actions ex2_slots ex2Sip (by decide +kernel) .bool (by decide +kernel) (by decide)
+theorem ex2_schemaWF3 : SchemaWF3 ex2Schema where
+  toSchemaWF2 := ex2_schemaWF
+  et_cn := by
+    intro T et h
+    have hm := entityType?_mem' h
+    simp only [ex2Schema, List.mem_cons, Prod.mk.injEq, List.not_mem_nil, or_false] at hm
+    rcases hm with ⟨rfl, rfl⟩ | ⟨rfl, rfl⟩
+    · exact ⟨rfl, fun t ht => by simp [ex2Group] at ht⟩
+    · exact ⟨rfl, fun t ht => by simp [ex2User] at ht; subst ht; rfl⟩
+  act_cn := by
+    intro u a h
+    have hm := action?_mem h
+    simp only [ex2Schema, List.mem_cons, Prod.mk.injEq, List.not_mem_nil, or_false] at hm
+    rcases hm with ⟨rfl, rfl⟩ | ⟨rfl, rfl⟩ <;> decide
+  acts_map := by
+    intro p hp
+    simp only [ex2Schema, List.mem_cons, List.not_mem_nil, or_false] at hp
+    rcases hp with rfl | rfl <;> rfl
+
+/-- strict ⇒ permissive at policy level on a condition whose `if`s join record types (`{x: True}` with `{x: False}`) and
+set types — outside `SIPFragment`, inside the strict fragment -/
+def ex2NonFlat : Expr :=
+  .and (.getAttr (.ite (.binaryApp .less (.getAttr context "level") (.lit (.int 5)))
+                       (.record [("x", .lit (.bool true))]) (.record [("x", .lit (.bool false))])) "x")
+       (.binaryApp .contains (.ite (.binaryApp .less (.getAttr context "level") (.lit (.int 5)))
+                                   (.set [principal]) (.set [principal, principal])) principal)
+example : SIPFragment ex2NonFlat = false := by decide +kernel
+example : checkPolicy .permissive ex2Schema .absent .absent ex2NonFlat =
+    some [(⟨"User", ⟨"Action", "view"⟩, "Group", ex2View.context, none, none⟩, .bool)] :=
+  strict_accepted_policy_permissive_accepted ex2Schema .absent .absent ex2NonFlat _ ex2_schemaWF3 (fun _ _ => rfl) rfl rfl
+
 /-- `False` from the hierarchy: a `Group` is never in a `User`; `True` from the action hierarchy: `view` is in `read` -/
 example : checkEnv .strict ex2Schema ex2Env (.binaryApp .mem (.var .resource) principal) = some .ff := by decide +kernel
 example : checkEnv .strict ex2Schema ex2Env (.binaryApp .mem (.var .action) (.lit (.entityUID ⟨"Action", "read"⟩))) = some .tt := by
